@@ -53,6 +53,7 @@ SPECIAL_VALID = [
     "v, Some < [ [ self ] [  ] { 0.1 .. <= } ] >", "v, Vec::<[u8 9]>::new()", "v, m::S::<(a b)> { x: 1 }", "v, E::<[T; 3 4]>::V(1)",
     "v, =~ #[a] r\"x\"", "v, =~ #[cfg(any())] \"a\"", "v, S { f: =~ #[a] \"x\", .. }", "v, == #[a] 1", "v, #[a] 1", "v, #[a] \"s\"", "v, #{ #[a] \"k\": 1 }",
     "v, S { f.get(#[a] 1): 2, .. }", "v, #[a] 1..2", "v, |cl_x| #[a] true",
+    "& mut w, _ {f : (move | cl_x | | ok (cl_x), b'a', - 5, | _ | true), g : 1.5, ..}", "v, |-5| true", "v, (|cl_x| |-1, 'c'| cl_x, 2)",
     "v, S { a: 4294967294 }", "v, Some(0: 1)", "v, E::V(0.f: 1, 1: 2)", "v, (0.0: 1)",
 ]
 # regex literals at the edges of what a regex engine takes (should the macro ever look inside one while it expands): not a regex at all,
